@@ -778,7 +778,10 @@ fn check_commit(id: &str, b: &[u8], spec: Option<&CommitSpec>) -> Result<(), Fai
     let owned: gix_object::Commit = c.clone().into();
     let mut out2 = Vec::new();
     if owned.write_to(&mut out2).is_err() || out2 != b || owned.size() != b.len() as u64 {
-        return fail("", format!("owned Commit re-encodes to {} (size() {}); {}", show(&out2), owned.size(), what()));
+        return fail(
+            spec.map_or("", |s| quirk_sig(&s.classes)),
+            format!("owned Commit re-encodes to {} (size() {}); {}", show(&out2), owned.size(), what()),
+        );
     }
     let hash = gix_object::compute_hash(gix_hash::Kind::Sha1, Kind::Commit, &out);
     if hash.to_hex().to_string() != id {
@@ -888,7 +891,10 @@ fn check_tag(id: &str, b: &[u8], spec: &TagSpec) -> Result<(), Fail> {
     let owned: gix_object::Tag = tg.clone().into();
     let mut out2 = Vec::new();
     if owned.write_to(&mut out2).is_err() || out2 != b || owned.size() != b.len() as u64 {
-        return fail("", format!("owned Tag re-encodes to {} (size() {}); {}", show(&out2), owned.size(), what()));
+        return fail(
+            reencode_sig(&spec.classes),
+            format!("owned Tag re-encodes to {} (size() {}); {}", show(&out2), owned.size(), what()),
+        );
     }
     let hash = gix_object::compute_hash(gix_hash::Kind::Sha1, Kind::Tag, &out);
     if hash.to_hex().to_string() != id {
